@@ -905,6 +905,15 @@ found:
 		x.refill()
 	}
 foundEndOfString:
+	if byteString {
+		// only ASCII characters may be written literally in a bytes literal
+		for _, c := range buf.Bytes() {
+			if c >= 0x80 {
+				x.SyntaxError("bytes can only contain ASCII literal characters.")
+				return eofError, nil
+			}
+		}
+	}
 	if !rawString {
 		var err error
 		buf, err = DecodeEscape(buf, byteString)
